@@ -445,6 +445,27 @@ fn run_case_inner(line: &str) -> Option<String> {
             format!("{} => {}", show_trace(&r.trace), r.outcome)
         }
         ["e2e", "direct", signs, rest @ ..] => e2e_direct(signs, rest)?,
+        ["e2e", "serial", signs, rest @ ..] => crate::iomock::e2e_serial(signs, rest)?,
+        ["io", "reads", n, evs @ ..] => crate::iomock::io_reads(n.parse().ok()?, crate::iomock::parse_revs(evs)?),
+        ["io", "write", a, ty, d, "|", evs @ ..] => {
+            let f = mk_frame(parse_u16(a)?, parse_u8(ty)?, parse_hex(d)?)?;
+            crate::iomock::io_write(&f, crate::iomock::parse_wevs(evs)?)
+        }
+        [verb @ ("serial" | "serialt"), m, "|", rest @ ..] => {
+            let g: Vec<&[&str]> = rest.split(|t| *t == "|").collect();
+            if g.len() != 2 {
+                return None;
+            }
+            crate::iomock::serial_case(*verb == "serialt", &parse_msg(m)?, crate::iomock::parse_revs(g[0])?, crate::iomock::parse_wevs(g[1])?)?
+        }
+        ["odk", n, signs, rest @ ..] => {
+            let g: Vec<&[&str]> = rest.split(|t| *t == "|").collect();
+            if g.len() != 3 {
+                return None;
+            }
+            crate::iomock::odk_case(n.parse().ok()?, signs, g[0], crate::iomock::parse_revs(g[1])?, crate::iomock::parse_wevs(g[2])?)?
+        }
+        ["port", kind, prior, fail] => crate::iomock::port_case(kind, crate::iomock::parse_settings(prior)?, crate::iomock::parse_fail(fail)?)?,
         _ => return None,
     })
 }
